@@ -115,6 +115,7 @@ def rule_identities(rep, repo, classes):
     import sympy as sp
     from gridlint import e8
     n_proved = 0
+    undecided = []
     for k in classes:
         if k == "InverseRTransform":
             continue  # generic wrapper: covered by R1/R7 (formulas over the wrapped transform)
@@ -151,8 +152,9 @@ def rule_identities(rep, repo, classes):
             else:
                 w = e8.witness(alg, sp.diff(raw[fa], alg.x), raw[fb], pts, raw=True)
             if w is None:
-                raise AnalysisError(f"cannot decide whether {k}.{fb} is the derivative of {k}.{fa} (normal forms "
-                                    f"differ or cannot be built, and no witness point separates them)")
+                undecided.append(f"cannot decide whether {k}.{fb} is the derivative of {k}.{fa} (normal forms "
+                                 f"differ or cannot be built, and no witness point separates them)")
+                continue
             pt, va, vb = w
             rep.violation("R5.derivative-chain", cons, f"d/dx {fa}",
                           f"`{fb}` is not the derivative of `{fa}`: at {e8.show_point(pt)} the derivative of "
@@ -178,15 +180,21 @@ def rule_identities(rep, repo, classes):
         else:
             w = e8.witness(alg, comp, alg.x, pts) if comp is not None else e8.witness(alg, comp_raw, alg.x, pts, raw=True)
             if w is None:
-                raise AnalysisError(f"cannot decide inverse(transform(x)) == x for {k}")
-            pt, va, _ = w
-            rep.violation("R6.inverse-undoes-forward", f"rtransform.{k}.inverse", "transform",
+                undecided.append(f"cannot decide inverse(transform(x)) == x for {k}")
+            else:
+                pt, va, _ = w
+                rep.violation("R6.inverse-undoes-forward", f"rtransform.{k}.inverse", "transform",
                           f"inverse(transform(x)) is not x: at {e8.show_point(pt)} it evaluates to {sp.N(va, 12)}",
                           fnode.loc(),
                           [f"inverse(transform(x)) = {alg.show(comp, 300) if comp is not None else str(comp_raw)[:300]}"])
         # R8 reference end points
-        end_points(rep, repo, k, F, alg, lo, hi, field_of)
+        try:
+            end_points(rep, repo, k, F, alg, lo, hi, field_of)
+        except AnalysisError as e:
+            undecided.append(str(e))
     rep.floor("analytic identities proved on normal forms", n_proved, 40)
+    if undecided:
+        raise AnalysisError("; ".join(undecided[:3]) + (f" (+{len(undecided) - 3} more)" if len(undecided) > 3 else ""))
 
 
 def end_points(rep, repo, k, F, alg, lo, hi, field_of):
